@@ -37,7 +37,10 @@ def queryOf (s : A) (j : Json) : R Json := do
     let w ← listOf str (← field j "w")
     return .bool (s.accepts w (← optVx j "v"))
   | "prefix" => return ofList Json.str (← lift (s.initialAccepted (← listOf str (← field j "w"))))
-  | "rejprefix" => return ofList Json.str (← lift (s.initialRejected (← listOf str (← field j "w"))))
+  | "rejprefix" =>
+    match ← lift (s.initialRejected (← listOf str (← field j "w"))) with
+    | some p => return ofList Json.str p
+    | none => return .null
   | "enum_fixed" =>
     let v ← startOf s j
     return pathsTo Json.str (← lift (s.enumFixed v (← natf j "n")))
